@@ -92,13 +92,13 @@ Print Assumptions hopen_read_only_flags.
 (** ---- non-vacuity: a concrete read-only file with a plain element, a special element, a length-less element,
     a vdata and a vgroup; a history mixing successful reads with every kind of write request ---- *)
 Definition ex_dds : list dd :=
-  [ {| d_tag := DFTAG_VERSION; d_ref := 1; d_off := 202; d_len := 92; d_special := false |};
-    {| d_tag := 1000; d_ref := 1; d_off := 294; d_len := 20; d_special := false |};
-    {| d_tag := 1001; d_ref := 1; d_off := 314; d_len := 16; d_special := true |};
-    {| d_tag := 1002; d_ref := 1; d_off := -1; d_len := -1; d_special := false |};
-    {| d_tag := DFTAG_VH; d_ref := 5; d_off := 330; d_len := 60; d_special := false |};
-    {| d_tag := DFTAG_VS; d_ref := 5; d_off := 390; d_len := 24; d_special := false |};
-    {| d_tag := DFTAG_VG; d_ref := 6; d_off := 414; d_len := 30; d_special := false |} ].
+  [ {| d_tag := DFTAG_VERSION; d_ref := 1; d_off := 202; d_len := 92; d_special := false; d_ext := false |};
+    {| d_tag := 1000; d_ref := 1; d_off := 294; d_len := 20; d_special := false; d_ext := false |};
+    {| d_tag := 1001; d_ref := 1; d_off := 314; d_len := 16; d_special := true; d_ext := false |};
+    {| d_tag := 1002; d_ref := 1; d_off := -1; d_len := -1; d_special := false; d_ext := false |};
+    {| d_tag := DFTAG_VH; d_ref := 5; d_off := 330; d_len := 60; d_special := false; d_ext := false |};
+    {| d_tag := DFTAG_VS; d_ref := 5; d_off := 390; d_len := 24; d_special := false; d_ext := false |};
+    {| d_tag := DFTAG_VG; d_ref := 6; d_off := 414; d_len := 30; d_special := false; d_ext := false |} ].
 Definition ex_ops : list op :=
   [ OStartAccess 1000 1 DFACC_READ; ORead 2 10; OWrite 2 4; OTrunc 2 3; OStartAccess 1000 1 DFACC_RDWR;
     OStartAccess 1002 1 DFACC_READ; OSetLength 3 8; OStartAccess 1001 1 DFACC_READ; OHLconvert 2; OPutElement 1000 1 20;
